@@ -19,6 +19,8 @@ import (
 	"encoding/binary"
 	"encoding/hex"
 	"fmt"
+	"io"
+	"net"
 	"net/netip"
 	"os"
 	"path/filepath"
@@ -31,7 +33,52 @@ import (
 	"github.com/daeuniverse/dae/common"
 	"github.com/daeuniverse/dae/common/consts"
 	"github.com/daeuniverse/dae/component/outbound/dialer"
+	"github.com/daeuniverse/dae/component/routing"
+	"github.com/daeuniverse/dae/pkg/config_parser"
+	dnsmessage "github.com/miekg/dns"
+	"github.com/sirupsen/logrus"
 )
+
+// c19Builder: an empty RoutingMatcherBuilder whose real add* encoders are then called directly.
+func c19Builder() *RoutingMatcherBuilder {
+	log := logrus.New()
+	log.SetOutput(io.Discard)
+	return &RoutingMatcherBuilder{
+		log:                 log,
+		outboundName2Id:     map[string]uint8{"direct": 0, "block": 1, "g2": 2, "g7": 7, "g200": 200},
+		lpmDedup:            make(map[uint64]lpmDedupEntry),
+		referencedOutbounds: make(map[string]struct{}),
+	}
+}
+
+// c19DomainKey: the domain_routing_map key the production path computes for an address learnt from a
+// DNS answer: buildDomainRoutingOwnerSnapshot(cache) -> snapshot.ips (extractIPsFromDnsCache, As16,
+// Ipv6ByteSliceToUint32Array).  ok=false when the production code stores no key (unspecified address).
+func c19DomainKey(a netip.Addr, as16Slice bool) (string, bool, error) {
+	var rr dnsmessage.RR
+	if a.Is4() {
+		ip := net.IP(a.AsSlice())
+		if as16Slice {
+			ip = ip.To16()
+		}
+		rr = &dnsmessage.A{Hdr: dnsmessage.RR_Header{Name: "x.", Rrtype: dnsmessage.TypeA, Class: dnsmessage.ClassINET}, A: ip}
+	} else {
+		rr = &dnsmessage.AAAA{Hdr: dnsmessage.RR_Header{Name: "x.", Rrtype: dnsmessage.TypeAAAA, Class: dnsmessage.ClassINET}, AAAA: net.IP(a.AsSlice())}
+	}
+	bitmap := make([]uint32, len(bpfDomainRouting{}.Bitmap))
+	bitmap[0] = 1
+	snap, err := buildDomainRoutingOwnerSnapshot(&DnsCache{DomainBitmap: bitmap, Answer: []dnsmessage.RR{rr}})
+	if err != nil {
+		return "", false, err
+	}
+	if len(snap.ips) != 1 {
+		return "", false, nil
+	}
+	for k := range snap.ips {
+		return c19MemBytes(unsafe.Pointer(&k), unsafe.Sizeof(k)), true, nil
+	}
+	return "", false, nil
+}
 
 type c19Type struct {
 	name string
@@ -432,14 +479,19 @@ func TestVerifC19(t *testing.T) {
 		if i < 3 {
 			stats.Sample(fmt.Sprintf("tuples %s %s %d %s %d %d -> %s", e, c19AddrTok(src), sp, c19AddrTok(dst), dp, proto, out))
 		}
-		// domain-routing key of the destination, LPM host key (real variant)
-		var dk string
+		// domain-routing key of the destination through the PRODUCTION path (DNS answer -> snapshot key)
 		ip6 := dst.As16()
 		arr := common.Ipv6ByteSliceToUint32Array(ip6[:])
-		dk = c19MemBytes(unsafe.Pointer(&arr), unsafe.Sizeof(arr))
-		stream.Emit(fmt.Sprintf("domkey %s %s", e, c19AddrTok(dst)), dk)
 		stream.Emit(fmt.Sprintf("u32arr %s %s", e, hex.EncodeToString(ip6[:])), fmt.Sprintf("%d %d %d %d", arr[0], arr[1], arr[2], arr[3]))
-		fmt.Fprintf(flows, "dom %s %s %s\n", fam, hex.EncodeToString(rd), dk)
+		if dk, ok, err := c19DomainKey(dst.WithZone(""), r.Bool()); err != nil {
+			stream.Emit(fmt.Sprintf("domkey %s %s", e, c19AddrTok(dst)), "error:"+err.Error())
+		} else if ok {
+			stream.Emit(fmt.Sprintf("domkey %s %s", e, c19AddrTok(dst)), dk)
+			fmt.Fprintf(flows, "dom %s %s %s\n", fam, hex.EncodeToString(rd), dk)
+			stats.Inc("domkey.production")
+		} else {
+			stats.Inc("domkey.skipped-unspecified")
+		}
 		if real {
 			bits := dst.BitLen()
 			switch r.Intn(4) {
@@ -447,6 +499,13 @@ func TestVerifC19(t *testing.T) {
 				bits = 0
 			case 1:
 				bits = r.Intn(dst.BitLen() + 1)
+			case 2: // around the byte / word / +96 boundaries
+				cands := []int{1, 7, 8, 9, 31, 32, 33, 63, 64, 65, 95, 96, 97, 127}
+				bits = cands[r.Intn(len(cands))]
+				if bits > dst.BitLen() {
+					bits = dst.BitLen() - 1
+				}
+				stats.Inc("lpm.boundary-length")
 			}
 			pfx := netip.PrefixFrom(dst.WithZone(""), bits)
 			k := cidrToBpfLpmKey(pfx)
@@ -456,6 +515,102 @@ func TestVerifC19(t *testing.T) {
 			if bits == dst.BitLen() {
 				fmt.Fprintf(flows, "lpmhost %s %s %s\n", fam, hex.EncodeToString(rd), kh)
 				stats.Inc("lpm.host")
+			}
+		}
+	}
+
+	// ---- match_set values through the REAL encoders (add*, rewriteKernRulesWithRingLpmIndex)
+	{
+		fn := &config_parser.Function{}
+		ob := &routing.Outbound{Name: "g7", Mark: 0x11223344}
+		msHex := func(ms bpfMatchSet) string { return c19MemBytes(unsafe.Pointer(&ms), unsafe.Sizeof(ms)) }
+		last := func(b *RoutingMatcherBuilder) bpfMatchSet { return b.rules[len(b.rules)-1] }
+		for v := 0; v < 256; v++ {
+			if v > 8 && !VThorough() && v%17 != 0 && v != 255 {
+				continue
+			}
+			b := c19Builder()
+			if err := b.addL4Proto(fn, consts.L4ProtoType(v), ob); err != nil {
+				t.Fatal(err)
+			}
+			ms := last(b)
+			stream.Emit(fmt.Sprintf("byteval %d", v), hex.EncodeToString(ms.Value[:]))
+			fmt.Fprintf(flows, "matchset l4proto_type %d %d %s\n", v, uint8(consts.MatchType_L4Proto), msHex(ms))
+			b = c19Builder()
+			if err := b.addIpVersion(fn, consts.IpVersionType(v), ob); err != nil {
+				t.Fatal(err)
+			}
+			ms = last(b)
+			stream.Emit(fmt.Sprintf("byteval %d", v), hex.EncodeToString(ms.Value[:]))
+			fmt.Fprintf(flows, "matchset ip_version %d %d %s\n", v, uint8(consts.MatchType_IpVersion), msHex(ms))
+			b = c19Builder()
+			if err := b.addDscp(fn, []uint8{uint8(v)}, ob); err != nil {
+				t.Fatal(err)
+			}
+			ms = last(b)
+			stream.Emit(fmt.Sprintf("byteval %d", v), hex.EncodeToString(ms.Value[:]))
+			fmt.Fprintf(flows, "matchset dscp %d %d %s\n", v, uint8(consts.MatchType_Dscp), msHex(ms))
+			stats.Add("matchset.byteval", 3)
+		}
+		// LPM set indices: the k-th mac() set gets index k; then the ring rewrite
+		b := c19Builder()
+		nsets := 40
+		for k := 0; k < nsets; k++ {
+			var mac [6]byte
+			for i := range mac {
+				mac[i] = byte(r.U64())
+			}
+			if k%7 == 0 {
+				mac = [6]byte{0xff, 0xff, 0xff, 0xff, 0xff, 0xff}
+			}
+			if err := b.addSourceMac(fn, [][6]byte{mac}, ob); err != nil {
+				t.Fatal(err)
+			}
+			ms := last(b)
+			stream.Emit(fmt.Sprintf("setidx %d", k), hex.EncodeToString(ms.Value[:]))
+			fmt.Fprintf(flows, "matchset index %d %d %s\n", k, uint8(consts.MatchType_Mac), msHex(ms))
+			stats.Inc("matchset.setidx")
+			if real {
+				pfx := b.simulatedLpmTries[len(b.simulatedLpmTries)-1][0]
+				key := cidrToBpfLpmKey(pfx)
+				kh := c19MemBytes(unsafe.Pointer(&key), unsafe.Sizeof(key))
+				stream.Emit(fmt.Sprintf("macaddr %s %s", e, hex.EncodeToString(mac[:])), kh)
+				fmt.Fprintf(flows, "mackey %s %s\n", hex.EncodeToString(mac[:]), kh)
+				stats.Inc("matchset.mackey")
+			}
+		}
+		for i := 0; i < 60*scale; i++ {
+			old := r.Intn(nsets + 3)
+			start := uint32(r.Intn(2 * consts.MaxMatchSetLen))
+			if r.Chance(0.2) {
+				start = uint32(consts.MaxMatchSetLen - 1 - r.Intn(3))
+			}
+			count := uint32(nsets)
+			if r.Chance(0.2) {
+				count = uint32(r.Intn(nsets + 1))
+			}
+			out := "error"
+			rules := append([]bpfMatchSet(nil), b.rules...)
+			if old < nsets {
+				if kr, err := rewriteKernRulesWithRingLpmIndex(rules[old:old+1], start, count); err == nil {
+					out = hex.EncodeToString(kr[0].Value[:])
+					fmt.Fprintf(flows, "matchset index %d %d %s\n", (start+uint32(old))%uint32(consts.MaxMatchSetLen), uint8(consts.MatchType_Mac), msHex(kr[0]))
+				}
+				stream.Emit(fmt.Sprintf("ring %d %d %d", old, start, count), out)
+				stats.Inc("matchset.ring")
+			}
+		}
+		for i := 0; i < 40*scale; i++ {
+			a, c := c19Port(r), c19Port(r)
+			bb := c19Builder()
+			if err := bb.addPort(fn, [][2]uint16{{a, c}}, ob); err != nil {
+				t.Fatal(err)
+			}
+			ms := last(bb)
+			if real {
+				stream.Emit(fmt.Sprintf("portrange %d %d", a, c), hex.EncodeToString(ms.Value[:]))
+				fmt.Fprintf(flows, "matchset port_range %d-%d %d %s\n", a, c, uint8(consts.MatchType_Port), msHex(ms))
+				stats.Inc("matchset.port")
 			}
 		}
 	}
